@@ -6,9 +6,10 @@
 //! carrying a digest of the machine state at that moment, and how the execution ended.  On the
 //! function side a new event starts when the address of the IL instruction changes or when an IL
 //! location is re-entered within the current event (a one-instruction loop); on the stepper side
-//! every instruction graph that holds IL is one event.  Native instructions that lift to no IL
-//! instruction at all (direct branches: falcon turns them into guarded edges) are events on
-//! neither side.
+//! every instruction graph that holds IL is one event.  A graph without any IL instruction (the
+//! deferred body `A+1` of a direct MIPS branch; an AArch64 direct branch, which is the known finding
+//! `...|empty-instruction-graph` and only gets this far when that finding is tolerated) is an event
+//! on neither side.
 #![allow(dead_code)]
 
 use crate::prog::{Isa, Program};
@@ -292,10 +293,9 @@ pub fn run_stepper(p: &Program, units: &BTreeMap<u64, Unit>, init: &RefState, li
         let mut branch: Option<u64> = None;
         for (k, (raw, view)) in u.graphs.iter().enumerate() {
             let a = *raw;
-            // a graph without any IL instruction (falcon omits direct branches from the IL and
-            // expresses them as guarded edges; the deferred MIPS branch body A+1 of a direct branch
-            // is empty as well): nothing executes there and the recovered function has nothing to
-            // show for it, so it is not an event on either side
+            // a graph without any IL instruction (the deferred body A+1 of a direct MIPS branch; an
+            // AArch64 direct branch while that known finding is tolerated): nothing executes there
+            // and the recovered function has nothing to show for it: not an event on either side
             let silent = u.il_instrs[k] == 0;
             if !silent {
                 if rec.evs.len() >= rec.cap {
